@@ -80,6 +80,7 @@ struct CBack {
 };
 struct CBackCirc : CBack {
   template <class Front, class Hi> using sm = msm::back::state_machine<Front, typename BackHist<Hi>::type, msm::back::queue_container_circular>;
+  template <class SM> static constexpr bool has_defq() { return msm::back::has_fsm_deferred_events<SM>::type::value; }
 };
 struct CBackFct {
   template <class F, class SM> static bool flag_or(SM& f) { return CBack::flag_or<F>(f); }
@@ -103,6 +104,7 @@ struct CBack11 {
 };
 struct CBack11Circ : CBack11 {
   template <class Front, class Hi> using sm = msm::back11::state_machine<Front, void, typename BackHist<Hi>::type, msm::back::queue_container_circular>;
+  template <class SM> static constexpr bool has_defq() { return msm::back11::has_fsm_deferred_events<SM>::type::value; }
 };
 #else
 template <class Front, class Cfg> struct Mp11Sm : msm::backmp11::state_machine<Front, Cfg, Mp11Sm<Front, Cfg>> {
